@@ -726,6 +726,9 @@ fn prio2(out: &mut Out, rng: &mut Sm, thorough: bool) {
         let r = catch(|| Prio2::new(n));
         let c = class(&r);
         out.oracle(c != "panic", || format!("Prio2::new({})", n), || format!("panicked: {}", r.as_ref().err().cloned().unwrap_or_default()));
+        // the documented domain: the proof needs 2 * next_power_of_two(n + 1) evaluation points, and the field has 2^20
+        let fits = n.checked_add(1).and_then(|x| x.checked_next_power_of_two()).and_then(|x| x.checked_mul(2)).map(|x| x <= 1 << 20).unwrap_or(false);
+        out.oracle((c == "ok") == fits, || format!("Prio2::new({})", n), || format!("{} although the dimension {} the field's capacity", if c == "ok" { "accepted" } else { "refused" }, if fits { "fits" } else { "exceeds" }));
         out.case(format!("c16 prio2new {}", n), c.into());
         out.count(&format!("prio2new.{}", c));
     }
